@@ -56,6 +56,8 @@ class Ctx:
         self.exhaustive = False
         self._known = [k for k in load_known() if k.get("property") == pid and k.get("status") == "known"]
         self._seen_sig: set = set()
+        import shutil
+        shutil.rmtree(REPLAYS / pid, ignore_errors=True)     # replay files always belong to the latest run
 
     # ---- coverage accounting
     def add_tlc(self, name: str, res: TLCResult) -> None:
